@@ -24,7 +24,11 @@ class Gen:
         self.p = {"requests": 1.0, "deploys": 1.0, "pause": 0.6, "rollout": 0.4, "remove": 0.15, "yields": 0.5,
                   "flap": 0.3, "hang": 0.25, "hosts": [b"a.example.com", b"b.example.com"], "services": [b"web", b"api"],
                   "upgrade": 0.0, "flap_targets": True, "behaviours": None, "fail_deploys": 0.2, "points": POINTS,
-                  "drain_timeouts": [0, 1 * SEC, 3 * SEC, 3 * SEC]}
+                  "drain_timeouts": [0, 1 * SEC, 3 * SEC, 3 * SEC],
+                  # cooldown > 0: a command on a service is (mostly) issued only when the previous command on that service is
+                  # that much virtual time back - the properties quantify over ONE command interleaved with requests;
+                  # "overlap" is the share of commands issued regardless
+                  "cooldown": 0, "overlap": 0.15}
         if profile:
             self.p.update(profile)
         self.steps = []
@@ -33,6 +37,8 @@ class Gen:
         self.next_target = 0
         self.live = {}          # service name -> host
         self.armed = []         # points armed and not yet released
+        self.clock = 0          # virtual time slept so far
+        self.last_cmd = {}      # service name -> clock of the last command on it
 
     def targets(self, n, healthy=True):
         rnd = self.rnd
@@ -49,7 +55,9 @@ class Gen:
                 k = rnd.randint(1, 3)
                 probes = [rnd.choice(["refused", "status:503", "status:302"]) for _ in range(k)] + ["ok"]
             elif r < 0.9:
-                probes = ["slow:%d" % rnd.choice([100 * MS, 900 * MS, 1500 * MS])] + ["ok"]
+                # a slow first answer, positive or negative (slower than the probe interval: the next probe is due meanwhile)
+                probes = [rnd.choice(["slow:%d" % (100 * MS), "slow:%d" % (900 * MS), "slow:%d" % (1500 * MS),
+                                      "slow:%d:500" % (1500 * MS), "slow:%d:503" % (2500 * MS)])] + ["ok"]
             elif not self.p["flap_targets"]:
                 probes = ["ok"]
             else:
@@ -100,6 +108,21 @@ class Gen:
             self.steps.append({"op": "settle"})
         else:
             self.steps.append({"op": "sleep", "ns": d})
+            self.clock += d
+
+    def may_command(self, name):
+        """cooldown rule; when the command must wait, time passes or a request is sent instead"""
+        cd = self.p["cooldown"]
+        if not cd or name not in self.last_cmd or self.clock - self.last_cmd[name] >= cd or self.rnd.random() < self.p["overlap"]:
+            self.last_cmd[name] = self.clock
+            return True
+        if self.rnd.random() < 0.5:
+            d = self.rnd.choice([1, 2, 3, 5]) * SEC
+            self.steps.append({"op": "sleep", "ns": d})
+            self.clock += d
+        else:
+            self.request()
+        return False
 
     def gen(self, n_actions):
         rnd, p = self.rnd, self.p
@@ -118,11 +141,14 @@ class Gen:
             acc += p["deploys"]
             if r < acc:
                 name = rnd.choice(p["services"])
-                self.deploy(name, healthy=rnd.random() >= self.p["fail_deploys"])
+                if self.may_command(name):
+                    self.deploy(name, healthy=rnd.random() >= self.p["fail_deploys"])
                 continue
             acc += p["pause"]
             if r < acc and self.live:
                 name = rnd.choice(list(self.live))
+                if not self.may_command(name):
+                    continue
                 k = rnd.choice(["pause", "pause", "stop", "resume", "resume"])
                 st = {"op": k, "id": self.cmd_id(), "async": True, "name": H(name)}
                 if k == "pause":
@@ -134,6 +160,8 @@ class Gen:
             acc += p["rollout"]
             if r < acc and self.live:
                 name = rnd.choice(list(self.live))
+                if not self.may_command(name):
+                    continue
                 k = rnd.choice(["rollout_deploy", "rollout_set", "rollout_stop"])
                 st = {"op": k, "id": self.cmd_id(), "async": True, "name": H(name)}
                 if k == "rollout_deploy":
@@ -146,6 +174,8 @@ class Gen:
             acc += p["remove"]
             if r < acc and self.live:
                 name = rnd.choice(list(self.live))
+                if not self.may_command(name):
+                    continue
                 self.steps.append({"op": "remove", "id": self.cmd_id(), "async": True, "name": H(name)})
                 del self.live[name]
                 continue
